@@ -418,7 +418,11 @@ Definition op_ok (e : env) (o : op) (before after : obs) : bool :=
     (ress_eqb (o_res after)
               (map (fun x : bool * nat => if fst x then RFalse else RInProgress) inner ++ [RErr])
      && same_state before after)
-    || (match o_res after with [RSkipped] => negb (o_alive before) && same_state before after | _ => false end)
+    || (match o_res after with
+        | [RSkipped] => negb (o_alive before) && same_state before after
+        | [RAlready] => onat_is (o_cur before) z && same_state before after
+        | _ => false
+        end)
   end.
 
 Fixpoint ops_ok (e : env) (n : nat) (ops : list op) (prev : obs) (os : list obs) : bool :=
